@@ -95,7 +95,7 @@ def build_harness():
         raise BuildError("harness:cargo-build", out[-4000:])
 
 
-FORBIDDEN = re.compile(r"\b(Admitted|admit|Axiom|Parameter|Conjecture|Hypothesis|Variable)\b|Unset Guard|bypass_check|type-in-type|impredicative-set|Admit Obligations")
+FORBIDDEN = re.compile(r"\b(Admitted|admit|give_up|Axioms?|Parameters?|Conjectures?|Hypothes[ie]s|Variables?)\b|Unset Guard|bypass_check|type-in-type|impredicative-set|Admit Obligations|Unset Positivity|Unset Universe")
 
 
 def scan_forbidden():
@@ -127,7 +127,7 @@ def scan_forbidden():
                     depth -= 1
                 m = FORBIDDEN.search(code)
                 if m:
-                    if m.group(1) in ("Hypothesis", "Variable") and depth > 0:
+                    if m.group(1) in ("Hypothesis", "Hypotheses", "Variable", "Variables") and depth > 0:
                         continue
                     bad.append("%s:%d: %s" % (os.path.relpath(path, COQ), i, line.strip()))
     return bad
